@@ -307,6 +307,19 @@ fn run_series(c: &mut Ctx) {
         if c.rng.chance(0.3) {
             b = xs[c.rng.int(0, n - 1)];
         }
+        // a bound a hair (1 ulp .. 1e-9 relative) off a knot, still inside the domain
+        if c.rng.chance(0.25) {
+            let k = xs[c.rng.int(0, n - 1)];
+            let h = if c.rng.bool() { 0.0 } else { k.abs().max(1e-300) * c.rng.log_range(1e-15, 1e-9) };
+            let v = if c.rng.bool() { next_up(k + h) } else { next_down(k - h) };
+            if v > x_lo && v < x_hi {
+                if c.rng.bool() {
+                    b = v;
+                } else {
+                    a = v;
+                }
+            }
+        }
         if a > b {
             std::mem::swap(&mut a, &mut b);
         }
@@ -445,8 +458,17 @@ fn run_series(c: &mut Ctx) {
                 Ok(cr) => {
                     // a crossing computed as x0 + (level - y0)/m may land one rounding error outside
                     // the last knot: evaluate the model at the nearest abscissa of the domain
-                    let snap = |x: f64| if (x - x_lo).abs() <= 1e-9 * (1.0 + x_lo.abs()) { x_lo } else if (x - x_hi).abs() <= 1e-9 * (1.0 + x_hi.abs()) { x_hi } else { x };
+                    let snap = |x: f64| if x < x_lo && x_lo - x <= 1e-9 * (1.0 + x_lo.abs()) { x_lo } else if x > x_hi && x - x_hi <= 1e-9 * (1.0 + x_hi.abs()) { x_hi } else { x };
                     let worst = cr.iter().map(|x| pl.at(snap(*x)).iter().map(|w| (w - level).abs()).fold(f64::INFINITY, f64::min)).fold(0.0, f64::max);
+                    if c.verbose {
+                        for x in &cr {
+                            let e = pl.at(snap(*x)).iter().map(|w| (w - level).abs()).fold(f64::INFINITY, f64::min);
+                            if e > 1e-9 {
+                                let i = xs.iter().position(|k| *k > *x).unwrap_or(n - 1).max(1);
+                                println!("  level {level:e}: crossing {x:e} is off by {e:e}; segment ({:e},{:e})-({:e},{:e})", xs[i - 1], ys[i - 1], xs[i], ys[i]);
+                            }
+                        }
+                    }
                     c.close("Series1::y_crossings", "interpolant equals the level at every returned abscissa", class, worst, 0.0, 1e-7 * pl.yspan());
                     // every strict sign change between consecutive knots is represented
                     let mut all = true;
@@ -495,14 +517,18 @@ fn run_chain(c: &mut Ctx) {
             break;
         }
         let op = c.rng.int(0, 8);
+        // x' = kx x + dx, y' = ky y + dy for the two affine derivations
+        let mut affine: Option<(f64, f64, f64, f64)> = None;
         let (name, r): (String, Result<Series1, crate::report::Caught>) = match op {
             0 => {
                 let k = c.rng.sign() * c.rng.log_range(0.1, 10.0);
                 let ky = c.rng.range(-3.0, 3.0);
+                affine = Some((k, 0.0, ky, 0.0));
                 (format!("scaled_by({k},{ky})"), guard(|| s.scaled_by(k, ky)))
             }
             1 => {
                 let (dx, dy) = (c.rng.range(-10.0, 10.0), c.rng.range(-10.0, 10.0));
+                affine = Some((1.0, dx, 1.0, dy));
                 (format!("shift_by({dx},{dy})"), guard(|| s.shift_by(dx, dy)))
             }
             2 => {
@@ -562,6 +588,26 @@ fn run_chain(c: &mut Ctx) {
                 }
                 if opn == "scaled_by" || opn == "shift_by" || opn == "abs" || opn == "dydx" {
                     c.check("chain", "point count kept", &opn, ns.x.len() == s.x.len(), || format!("{} -> {}", s.x.len(), ns.x.len()));
+                }
+                if let Some((kx, dx, ky, dy)) = affine {
+                    // the derived series is the same function in the new coordinates: every knot
+                    // (x, y) of the parent appears as (kx x + dx, ky y + dy)
+                    if ns.x.len() == s.x.len() {
+                        let m = s.x.len();
+                        let yspan = s.y.iter().filter(|v| v.is_finite()).fold(0.0f64, |a, v| a.max(v.abs())) * ky.abs() + dy.abs() + 1e-300;
+                        let xspan = (s.x[m - 1] - s.x[0]).abs() * kx.abs() + 1e-300;
+                        let mut bad = None;
+                        for i in 0..m {
+                            let j = if kx < 0.0 { m - 1 - i } else { i };
+                            let (wx, wy) = (kx * s.x[i] + dx, ky * s.y[i] + dy);
+                            let okx = (ns.x[j] - wx).abs() <= 1e-12 * (xspan + wx.abs());
+                            let oky = (ns.y[j].is_nan() && wy.is_nan()) || ns.y[j] == wy || (ns.y[j] - wy).abs() <= 1e-12 * (yspan + wy.abs());
+                            if !(okx && oky) && bad.is_none() {
+                                bad = Some((i, wx, wy, ns.x[j], ns.y[j]));
+                            }
+                        }
+                        c.check("chain", "scaling / shifting maps every knot (x, y) to (kx x + dx, ky y + dy)", &opn, bad.is_none(), || format!("{name}: knot, wanted (x, y), got (x, y) = {:?}", bad));
+                    }
                 }
                 s = ns;
             }
